@@ -270,7 +270,9 @@ def step (s : DState) (line : String) : DState × String :=
     ({ s with specOut := "q.tovec " ++ showList showOrder (canonSort s.fifo) },
      "q.tovec " ++ showList showOrder (canonSort s.q.toVec))
   | ["conc.thread", k, ops] =>
-    match k.toNat?, (ops.splitOn ";").mapM parseCOp with
+    -- `read~snap` (one call of `PriceLevel::snapshot`: three loads and one map iteration) is the four one-step reads
+    match k.toNat?, ((ops.splitOn ";").mapM (fun o =>
+        if o == "read~snap" then some [Conc.COp.readVis, .readHid, .readCnt, .readList] else (parseCOp o).map (fun c => [c]))).map List.flatten with
     | some k, some ops =>
       let prog := if k < s.cprog.length then s.cprog.set k ops else s.cprog ++ [ops]
       ({ s with cprog := prog }, "conc.thread")
